@@ -69,5 +69,7 @@ def run_all(chk, fsets, tier):
     rt.check_kraft_monotone(chk, F, "F4.tables")
     import rules_ivl
     rules_ivl.run_c20(chk, F, fsets[0], tier)
+    rules_ivl.run_golomb(chk, F, fsets[0], tier, "C20")
+
     chk.assume("the debug assertions f(x) >= prev_value express the property's hypothesis (f non-decreasing) and are not obligations")
     chk.trust("rustc MIR construction and the mirx exporter; contracts; exact rational simplex")
